@@ -18,6 +18,7 @@ import Pms.Props.C15F
 #print axioms Pms.Vec.C15_spectrum_split
 #print axioms Pms.Vec.C15_group_mean_def
 #print axioms Pms.Vec.C15_group_split
+#print axioms Pms.Vec.C15_spectra_split
 #print axioms Pms.Vec.C15_isLinear_iff
 #print axioms Pms.Vec.C15_fft_corr_def
 #print axioms Pms.Vec.C15_fft_corr_log_def
